@@ -60,6 +60,23 @@ var corpus = [][]string{
 		"waitstarted 1", "go sdw", "waitseen 1", "sleep 20", "kick 1", "join"},
 	{"bw 1 2 g", "bw 2 -9223372036854775808 c", "bw 3 9223372036854775807 x", "start", "waitstarted 1", "go sdw", "go sdw", "waitseen 1",
 		"sleep 20", "kick 1", "join"},
+	// handlers that call back into the daemon: worker 1 registers worker 21 (order 0) from inside its handler while the
+	// daemon runs; after it has seen its cancellation its registration of 41 and its Start must be refused / do nothing
+	{"bw 1 5 a@0", "bw 2 -3 c", "bw 3 5 a@9", "start", "waitstarted 1", "waitstarted 3", "workers", "ctxflag", "go sdw", "waitseen 1", "join", "ctxflag", "workers"},
+	// a registration while a shutdown is in progress (the shutdown waits for the gated order-5 worker): refused, the
+	// stopped context and the flag are both set already, Start does nothing, Run waits for the gated worker
+	{"bw 1 5 g", "bw 2 0 c", "start", "waitstarted 1", "go sdw", "waitseen 1", "ctxflag", "bw 3 0 c", "bw 4 9 c", "start", "go run", "sleep 10",
+		"workers", "kick 1", "join", "ctxflag"},
+	// a handler that shuts the daemon down from inside; an equal-order peer holds until both are cancelled
+	{"bw 1 5 k", "bw 2 0 s", "bw 3 5 h", "start", "waitstarted 1", "waitstarted 3", "kick 1", "waitseen 2", "go sdw", "join", "ctxflag"},
+	// workers that return on ContextStopped() instead of their own context: they leave long before their order's turn
+	{"bw 1 0 q", "bw 2 5 g", "bw 3 -3 q", "bw 4 -3 c", "start", "waitstarted 2", "waitstarted 1", "waitstarted 3", "go sdw", "waitseen 2", "sleep 10", "kick 2", "join"},
+	// the same through the package-level API is covered by the `mode default` case above; sequential: the model makes
+	// the nested registration as soon as the handler runs (name 21 is still running when worker 1 is re-registered)
+	{"mode seq", "obs on", "ctxflag", "bw 1 5 a@0", "bw 2 0 a@9", "start", "workers", "ctxflag", "fin 1", "bw 1 -3 a@-3", "workers", "sdw", "seenlog",
+		"ctxflag", "bw 21 0 c"},
+	{"mode seq", "bw 1 2 a@2", "start", "bw 2 2 a@-9223372036854775808", "bw 3 9223372036854775807 a@9223372036854775807", "workers", "fin 21", "fin 2",
+		"bw 2 0 a@5", "workers", "ctxflag", "sdw", "seenlog", "ctxflag", "ctxstopped"},
 	// equal-order workers that hold until their peers are cancelled; a gated top group
 	{"bw 1 5 h", "bw 2 5 h", "bw 3 5 h", "bw 4 2 h", "bw 5 2 s", "bw 6 9 g", "start", "go sdw", "go sdw", "waitseen 6", "sleep 10", "kick 6", "join"},
 }
@@ -84,16 +101,20 @@ func genSeq(rng *hx.Rng) []string {
 		// of the cases runs without the extra queries (a query with a side effect would otherwise hide or heal something)
 		s = append(s, "obs on")
 	}
-	kind := func() string {
-		if rng.Chance(1, 6) {
-			return "x"
-		}
-
-		return "c"
-	}
 	pool := orderPool
 	if rng.Chance(1, 4) {
 		pool = extremePool
+	}
+	kind := func() string {
+		switch x := rng.Intn(24); {
+		case x < 4:
+			return "x"
+		case x < 7:
+			// the handler registers another worker (name + 20) from inside
+			return fmt.Sprintf("a@%d", hx.Pick(rng, pool))
+		}
+
+		return "c"
 	}
 	bw := func(maxName int) string {
 		return fmt.Sprintf("bw %d %s %s", rng.Range(1, maxName), orderTok(rng, pool), kind())
@@ -121,8 +142,10 @@ func genSeq(rng *hx.Rng) []string {
 			s = append(s, "isrunning")
 		case x < 88:
 			s = append(s, "isstopped")
-		case x < 91:
+		case x < 90:
 			s = append(s, "ctxstopped")
+		case x < 92:
+			s = append(s, "ctxflag")
 		case x < 95:
 			s = append(s, "start")
 		default:
@@ -131,7 +154,7 @@ func genSeq(rng *hx.Rng) []string {
 	}
 	s = append(s, "workers", "sdw", "seenlog")
 	if rng.Chance(1, 2) {
-		s = append(s, "ctxstopped")
+		s = append(s, hx.Pick(rng, []string{"ctxstopped", "ctxflag"}))
 	}
 	for i, n := 0, rng.Range(0, 3); i < n; i++ {
 		switch rng.Intn(5) {
@@ -167,7 +190,13 @@ func genConc(rng *hx.Rng) []string {
 		orders = extremePool
 	}
 	bw := func(maxName int) string {
-		return fmt.Sprintf("bw %d %s %s", rng.Range(1, maxName), orderTok(rng, orders), hx.Pick(rng, kinds))
+		k := hx.Pick(rng, kinds)
+		if rng.Chance(1, 6) {
+			// handlers that call back into the daemon / react to ContextStopped()
+			k = hx.Pick(rng, []string{fmt.Sprintf("a@%d", hx.Pick(rng, orders)), fmt.Sprintf("a@%d", hx.Pick(rng, orders)), "k", "q"})
+		}
+
+		return fmt.Sprintf("bw %d %s %s", rng.Range(1, maxName), orderTok(rng, orders), k)
 	}
 	for i, n := 0, rng.Range(1, 7); i < n; i++ {
 		s = append(s, bw(6))
@@ -190,8 +219,10 @@ func genConc(rng *hx.Rng) []string {
 			s = append(s, fmt.Sprintf("kick %d", rng.Range(1, 9)))
 		case x < 75:
 			s = append(s, "go "+bw(9))
-		case x < 85:
+		case x < 83:
 			s = append(s, fmt.Sprintf("sleep %d", rng.Range(1, 6)))
+		case x < 85:
+			s = append(s, "ctxflag")
 		case x < 90 && !usedRun:
 			s = append(s, "go run")
 			usedRun = true
@@ -224,6 +255,9 @@ func genConc(rng *hx.Rng) []string {
 		if rng.Chance(1, 3) {
 			s = append(s, fmt.Sprintf("sleep %d", rng.Range(1, 8)))
 		}
+		if rng.Chance(1, 4) {
+			s = append(s, hx.Pick(rng, []string{"ctxflag", "go ctxflag"}))
+		}
 		if parked && rng.Chance(1, 2) {
 			s = append(s, "release", "waitpark")
 			parked = false
@@ -236,7 +270,7 @@ func genConc(rng *hx.Rng) []string {
 	if parked {
 		s = append(s, "release", "waitpark")
 	}
-	s = append(s, "kickall", "go sdw", "join", hx.Pick(rng, []string{"isstopped", "ctxstopped"}), bw(9), "start")
+	s = append(s, "kickall", "go sdw", "join", hx.Pick(rng, []string{"isstopped", "ctxstopped", "ctxflag"}), bw(9), "start")
 
 	return s
 }
